@@ -90,6 +90,17 @@ class Recorder:
                     s.held = None
                     mark("rel")
                     rec.log("Release")
+                    if mode == "w" and getattr(rec, "hook_pids", None) and rec.active:
+                        was, rec.active = rec.active, False       # our own /proc reads are not server events
+                        try:
+                            for pgid in rec.hook_pids:
+                                alive = rec.group_alive(pgid)
+                                if alive:
+                                    rec.files.append(dict(t="main", ev="hook-group-alive", path="", write=False, held=None,
+                                                          op=None, processes=alive[:5], pgid=pgid))
+                            rec.hook_pids = []
+                        finally:
+                            rec.active = was
                     if rec.adversary and mine and rec.active:
                         rec.adversary.grab()
         self.storage.acquire_lock = acquire_lock
@@ -295,6 +306,41 @@ class Recorder:
         sys.addaudithook(hook)
 
     # ---------------------------------------------------------------- per request
+    def watch_hook_group(self):
+        """Record the process the storage hook starts; at the Release of an exclusive section no process of
+        its group may be alive (lock.py kills what is left of the group before unlocking)."""
+        import subprocess
+        rec = self
+        rec.hook_pids = []
+        base = subprocess.Popen
+
+        class Popen(base):
+            def __init__(self, *a, **kw):
+                super().__init__(*a, **kw)
+                if rec.active:
+                    rec.hook_pids.append(self.pid)
+        subprocess.Popen = Popen
+
+    def group_alive(self, pgid, wait=0.3):
+        import time
+        deadline = time.time() + wait
+        while True:
+            alive = []
+            for d in os.listdir("/proc"):
+                if not d.isdigit():
+                    continue
+                try:
+                    with open("/proc/%s/stat" % d) as f:
+                        st = f.read()
+                    rest = st[st.rindex(")") + 2:].split()
+                    if int(rest[2]) == pgid and rest[0] not in ("Z", "X"):
+                        alive.append((int(d), st[st.index("(") + 1:st.rindex(")")]))
+                except (OSError, ValueError, IndexError):
+                    continue
+            if not alive or time.time() > deadline:
+                return alive
+            time.sleep(0.02)
+
     def begin(self):
         self.api, self.files = [], []
         self.active = True
@@ -428,6 +474,48 @@ MKCOL_AB = ('<?xml version="1.0"?><D:mkcol %s><D:set><D:prop><D:resourcetype><D:
             '</D:resourcetype></D:prop></D:set></D:mkcol>' % NS)
 
 
+def hostile_token(rng, target):
+    """A sync token whose 64-character name is a relative path (alphabet [0-9a-f./]) from the sync-token cache
+    folder to an item / props file of the collection or of a sibling, or random text over that alphabet."""
+    names = {"/u/cal/": ["e1.ics", "e2.ics", "e3.ics", "e4.ics", "rec.ics"], "/u/ab/": ["c1.vcf", "c2.vcf"]}
+    pre = "http://radicale.org/ns/sync/"
+    c = rng.random()
+    if c < 0.6:
+        # only names over the alphabet survive a per-character test; others are for a weakened test
+        leaf = rng.choice(names.get(target, ["e1.ics"]) + ["e1.ics", "c1.vcf", ".Radicale.props"])
+        up = rng.choice(["../../", "../../", "../../../cal/", "../../../ab/"])
+        body = up + leaf
+        pad = 64 - len(body)
+        if pad >= 0 and pad % 2 == 0:
+            k = up.count("../") * 3
+            return pre + body[:k] + "./" * (pad // 2) + body[k:]
+    alphabet = "0123456789abcdef./"
+    return pre + "".join(rng.choice(alphabet) for _ in range(64))
+
+
+def path_token(rel):
+    """64-character token name = relative path `rel` (from <collection>/.Radicale.cache/sync-token/) padded with './'."""
+    k = 0
+    while rel.startswith("../", k):
+        k += 3
+    pad = 64 - len(rel)
+    assert pad >= 0 and pad % 2 == 0, rel
+    return "http://radicale.org/ns/sync/" + rel[:k] + "./" * (pad // 2) + rel[k:]
+
+
+def hostile_block():
+    """sync-collection REPORTs whose token names are relative paths to collection data (deterministic)."""
+    out = []
+    for target, rels in (("/u/cal/", ["../../e1.ics", "../../rec.ics", "../../../ab/c1.vcf", "../../.Radicale.props"]),
+                         ("/u/ab/", ["../../c2.vcf", "../../../cal/e2.ics"])):
+        for rel in rels:
+            if (64 - len(rel)) % 2:
+                rel = rel[:rel.rindex("/") + 1] + "/" + rel[rel.rindex("/") + 1:]       # a//b: same file, even padding
+            out.append(dict(method="REPORT", path=target, login="u:", data=report_body("sync", None, (), path_token(rel)),
+                            rkind="sync-hostile", kind="hostile"))
+    return out
+
+
 def setup_requests():
     """A small store: user u with two calendars and an address book (requests, so that the same driver runs them)."""
     L = "u:"
@@ -528,7 +616,7 @@ def gen_requests(rng, n, read_only=False):
             if kind.startswith("ab-") and rng.random() < 0.7:
                 target = "/u/ab/"
             hrefs = rng.sample(items, rng.randint(0, 4)) + rng.choice([[], [target], ["/u/cal/../x", "http://h/u/cal/e1.ics"]])
-            tok = rng.choice(tokens)
+            tok = rng.choice(tokens + [hostile_token(rng, target)] * 3) if kind == "sync" else rng.choice(tokens)
             r["path"] = target
             r["data"] = report_body(kind, rng, hrefs, tok)
             r["rkind"] = kind
